@@ -215,6 +215,30 @@ impl GroupCtrStore {
     }
 }
 
+/// Verification hook (feature `verif`, C03): canonical rendering of the group counter store,
+/// `clock=<n> [<fab>:<node hex>:<max>:<bitmap>:<synced>:<last used>,..]`.
+#[cfg(all(feature = "verif", feature = "groups"))]
+impl GroupCtrStore {
+    pub fn verif_snapshot(&self, out: &mut dyn core::fmt::Write) -> core::fmt::Result {
+        write!(out, "clock={} [", self.clock)?;
+        for (i, e) in self.entries.iter().enumerate() {
+            let (max, bitmap, synced) = e.rx_ctr.verif_parts();
+            write!(
+                out,
+                "{}{}:{:x}:{}:{}:{}:{}",
+                if i > 0 { "," } else { "" },
+                e.fab_idx,
+                e.src_nodeid,
+                max,
+                bitmap,
+                synced as u8,
+                e.last_used
+            )?;
+        }
+        write!(out, "]")
+    }
+}
+
 #[cfg(test)]
 mod tests {
     use super::RxCtrState;
